@@ -323,6 +323,7 @@ structure DB where
   iters : Array ChangeIter := #[]
   gcDead : List (Nat × List Key) := []    -- result of a paused collector scan
   gcPaused : Bool := false
+  gcTrig : Bool := false                  -- a collection trigger is pending (mark / close)
   deriving Inhabited
 
 def DB.trackerRevOf (db : DB) (id : Nat) : Nat := ((db.trackerRev.find? (·.1 = id)).map (·.2)).getD 0
